@@ -244,6 +244,7 @@ dt_io_find_strpdt2(
 			static const char b_needle[] = "ADFJMNOSadfjmnos";
 			static const char tb_needle[] = "FGHJKMNQUVXZ";
 			static const char o_needle[] = "CDILMVXcdilmvx";
+			static const char p_needle[] = "APap";
 
 		case GRPATM_A_SPEC:
 			ndl = a_needle;
@@ -259,6 +260,9 @@ dt_io_find_strpdt2(
 			break;
 		case GRPATM_O_SPEC:
 			ndl = o_needle;
+			break;
+		case GRPATM_P_SPEC:
+			ndl = p_needle;
 			break;
 
 		case GRPATM_DIGITS:
@@ -329,10 +333,14 @@ dt_io_find_strpdt2(
 		}
 		/* not reached unless ndl is set */
 		for (p = str; (p = xmempbrk(p, zp - p, ndl)) < zp && *p; p++) {
-			if (p + f.off_min < str || p + f.off_max > zp) {
-				continue;
-			}
-			for (int8_t j = f.off_min; j <= f.off_max; j++) {
+			/* clip the window to the line */
+			for (int j = p + f.off_min < str
+				     ? (int)(str - p) : f.off_min;
+			     j <= f.off_max; j++) {
+				if (p[j] == ' ') {
+					/* blanks are not the start of anything */
+					continue;
+				}
 				if (!dt_unk_p(d = dt_strpdt(p + j, fmt, ep))) {
 					p += j;
 					goto found;
@@ -371,9 +379,10 @@ struct grep_atom_s
 calc_grep_atom(const char *fmt)
 {
 	struct grep_atom_s res = {0};
-	int8_t andl_idx = 0;
-	int8_t bndl_idx = 0;
-	int8_t pndl_idx = 0;
+	/* window of offsets in front of the first name or am/pm field */
+	int8_t andl_min = 0, andl_max = 0;
+	int8_t bndl_min = 0, bndl_max = 0;
+	int8_t pndl_min = 0, pndl_max = 0;
 
 	/* init */
 	if (fmt == NULL) {
@@ -485,8 +494,9 @@ calc_grep_atom(const char *fmt)
 			res.pl.flags |= GRPATM_DIGITS;
 			break;
 		case DT_SPFL_S_WDAY:
-			if (res.pl.off_min == res.pl.off_max) {
-				andl_idx = res.pl.off_min;
+			if (!(res.pl.flags & (GRPATM_A_SPEC | GRPATM_TA_SPEC))) {
+				andl_min = res.pl.off_min;
+				andl_max = res.pl.off_max;
 			}
 			switch (spec.abbr) {
 			case DT_SPMOD_NORM:
@@ -509,8 +519,9 @@ calc_grep_atom(const char *fmt)
 			}
 			break;
 		case DT_SPFL_S_MON:
-			if (res.pl.off_min == res.pl.off_max) {
-				bndl_idx = res.pl.off_min;
+			if (!(res.pl.flags & (GRPATM_B_SPEC | GRPATM_TB_SPEC))) {
+				bndl_min = res.pl.off_min;
+				bndl_max = res.pl.off_max;
 			}
 			switch (spec.abbr) {
 			case DT_SPMOD_NORM:
@@ -541,10 +552,11 @@ calc_grep_atom(const char *fmt)
 			res.needle = 'Q';
 			goto out;
 		case DT_SPFL_S_AMPM:
-			res.pl.flags |= GRPATM_P_SPEC;
-			if (res.pl.off_min == res.pl.off_max) {
-				pndl_idx = res.pl.off_min;
+			if (!(res.pl.flags & GRPATM_P_SPEC)) {
+				pndl_min = res.pl.off_min;
+				pndl_max = res.pl.off_max;
 			}
+			res.pl.flags |= GRPATM_P_SPEC;
 			res.pl.off_min += -2;
 			res.pl.off_max += -2;
 			break;
@@ -574,30 +586,35 @@ post_snarf:
 			goto out;
 		} else if (res.pl.flags & GRPATM_A_SPEC) {
 			res.needle = GRPATM_NEEDLELESS_MODE_CHAR;
-			res.pl.off_min = res.pl.off_max = andl_idx;
+			res.pl.off_min = andl_min;
+			res.pl.off_max = andl_max;
 			res.pl.flags = GRPATM_A_SPEC;
 			goto out;
 		} else if (res.pl.flags & GRPATM_B_SPEC) {
 			res.needle = GRPATM_NEEDLELESS_MODE_CHAR;
-			res.pl.off_min = res.pl.off_max = bndl_idx;
+			res.pl.off_min = bndl_min;
+			res.pl.off_max = bndl_max;
 			res.pl.flags = GRPATM_B_SPEC;
 			goto out;
 		} else if (res.pl.flags & GRPATM_O_SPEC) {
 			res.needle = GRPATM_NEEDLELESS_MODE_CHAR;
 		} else if (res.pl.flags & GRPATM_P_SPEC) {
 			res.needle = GRPATM_NEEDLELESS_MODE_CHAR;
-			res.pl.off_min = res.pl.off_max = pndl_idx;
+			res.pl.off_min = pndl_min;
+			res.pl.off_max = pndl_max;
 			res.pl.flags = GRPATM_P_SPEC;
 			goto out;
 		} else if (res.pl.flags & GRPATM_TA_SPEC) {
 			/* very short but better than going for digits aye? */
 			res.needle = GRPATM_NEEDLELESS_MODE_CHAR;
-			res.pl.off_min = res.pl.off_max = andl_idx;
+			res.pl.off_min = andl_min;
+			res.pl.off_max = andl_max;
 			res.pl.flags = GRPATM_TA_SPEC;
 			goto out;
 		} else if (res.pl.flags & GRPATM_TB_SPEC) {
 			res.needle = GRPATM_NEEDLELESS_MODE_CHAR;
-			res.pl.off_min = res.pl.off_max = bndl_idx;
+			res.pl.off_min = bndl_min;
+			res.pl.off_max = bndl_max;
 			res.pl.flags = GRPATM_TB_SPEC;
 			goto out;
 		}
